@@ -1,5 +1,5 @@
 (* Properties/C07.v — Search quality: exact on small collections, high recall on large ones. *)
-From Verif Require Import Base.Prelude Store.Spec Store.Partition Hnsw.Model Hnsw.Inv Hnsw.Search Hnsw.Exact Generated.Facts.
+From Verif Require Import Base.Prelude Store.Spec Store.Partition Hnsw.Model Hnsw.Inv Hnsw.Search Hnsw.Exact Hnsw.Cover Hnsw.Small Generated.Facts.
 From Coq Require Import Sorted.
 Open Scope N_scope.
 
@@ -7,7 +7,7 @@ Lemma C07_facts_ok :
   search_beam_is_max_ef_k = Known true /\ level0_uses_mmax0 = Known true /\ links_both_ways = Known true /\ search_skips_deleted = Known true.
 Proof. repeat split; reflexivity. Qed.
 
-(* PROVED PART.  For every state satisfying the invariant, every query, k, config, distance function and iteration
+(* For every state satisfying the invariant, every query, k, config, distance function and iteration
    order: if the level-0 beam reaches every live vertex, Search returns exactly the k nearest items, in exact order,
    each with its true distance (the beam is then a duplicate-free ascending enumeration of all live vertices and the
    answer is its first k entries). *)
@@ -19,10 +19,52 @@ Theorem C07_exact_partial : forall dist ord c s q k, Inv s -> covers s (beam dis
   (forall x, In x found -> fst x = dist q (vvec (vget s (snd x)))).
 Proof. exact exact_given_coverage. Qed.
 
-(* NOT PROVED HERE (full statement kept visible as Hnsw.Exact.C07_exact_statement): for insert-only collections with at
-   most 2M+1 items, mMax0 = 2M and n <= max(ef, k), the beam covers every live vertex.  Checked on the model (covers_b)
-   and on the implementation (exact top-k against brute force) for every insertion order of up to 5 items and random
-   larger ones within the bound, all three metrics, both selection modes, small and large efConstruction.
-   The recall floor on large random collections is a statistical statement: measured, not a theorem. *)
+(* THE EXACTNESS CLAUSE IN FULL.  For every insert-only history of at most 2M+1 items with distinct ids (any vectors,
+   any level assignment, any insertion order), mMax0 = 2M, M >= 1, every iteration order of the edge maps (any
+   permutation at every `range`), both selection modes, any efConstruction >= 0, every distance function, every query
+   and every k with n <= max(ef, k): Search returns exactly the k nearest items in exact order with their true
+   distances — [found] below enumerates every item exactly once in ascending order of true distance and the answer is
+   its first k entries.  (Level 0 stays strongly connected because no link is ever pruned within the bound and every
+   new vertex is linked both ways with an earlier one — Hnsw/Small.v; a beam at least as wide as the index never stops
+   early and never evicts — Hnsw/Cover.v.)  The 64-bit item counter is assumed not to have wrapped. *)
+Theorem C07_exact : forall dist ord c (ops : list (N * vec * meta * nat)) q k,
+  (forall es, Permutation (ord es) es) -> c_extend c = false ->
+  NoDup (map (fun '(id, _, _, _) => id) ops) ->
+  (length ops <= 2 * c_m c + 1)%nat -> c_mmax0 c = (2 * c_m c)%nat -> (1 <= c_m c)%nat ->
+  (length ops <= Nat.max (c_ef c) k)%nat -> N.of_nat (length ops) < two64 ->
+  let s := insert_only dist ord c ops in
+  let found := beam dist ord c s q k in
+  map snd (search dist ord c s q k) = firstn k (map fst found) /\
+  qsorted found /\ NoDup (map snd found) /\ length found = length ops /\
+  (forall n, (n < length ops)%nat -> In n (map snd found)) /\
+  (forall x, In x found -> fst x = dist q (vvec (vget s (snd x)))).
+Proof.
+  intros dist ord c ops q k OP NX ND LEN M0 M1 WIDE SMALL s found.
+  destruct (small_inv dist ord c OP NX ops ND LEN M0 M1) as (I & KS & L). fold s in I, KS, L.
+  pose proof (C07_exact_holds dist ord c OP NX OP ops q k ND LEN M0 M1 WIDE NX SMALL) as CV. fold s in CV.
+  destruct (exact_given_coverage dist ord c s q k I CV) as (A & B & C & D & E). fold found in A, B, C, D, E.
+  assert (ALL : forall n, (n < length ops)%nat -> In n (map snd found)).
+  { intros n Hn. apply D. apply (k_live s KS). rewrite L. exact Hn. }
+  split; [exact A|split; [exact B|split; [exact C|split; [|split; [exact ALL|exact E]]]]].
+  assert (EL : length found = length (map snd found)) by (symmetry; apply map_length). rewrite EL. apply Nat.le_antisymm.
+  - rewrite <- L. apply nodup_bound; auto. intros x Hx. apply D in Hx. apply (live_lt s x Hx).
+  - rewrite <- (seq_length (length ops) 0). apply NoDup_incl_length; [apply seq_NoDup|].
+    intros x Hx. apply in_seq in Hx. apply ALL. lia.
+Qed.
+
+(* the premises are satisfiable and the conclusion says something: three points on a line, M = 1, ef = 1, k = 3 *)
+Definition ex_dist (a b : vec) : Z := Z.abs (Z.of_N (hd 0 a) - Z.of_N (hd 0 b)).
+Definition ex_cfg : cfg := {| c_m := 1; c_mmax := 1; c_mmax0 := 2; c_ef := 1; c_efc := 2; c_heur := true; c_extend := false; c_keep := true |}.
+Definition ex_ops : list (N * vec * meta * nat) := [(7, [30], [], 0%nat); (8, [10], [], 1%nat); (9, [20], [], 0%nat)].
+Example C07_exact_nonvacuous :
+  NoDup (map (fun '(id, _, _, _) => id) ex_ops) /\ (length ex_ops <= 2 * c_m ex_cfg + 1)%nat /\ c_mmax0 ex_cfg = (2 * c_m ex_cfg)%nat /\
+  (length ex_ops <= Nat.max (c_ef ex_cfg) 3)%nat /\
+  map (fun x => (fst (fst x), snd x)) (search ex_dist (fun l => rev l) ex_cfg (insert_only ex_dist (fun l => rev l) ex_cfg ex_ops) [12] 3) = [(8, 2%Z); (9, 8%Z); (7, 18%Z)].
+Proof.
+  split; [repeat constructor; simpl; intuition discriminate|]. split; [simpl; lia|]. split; [reflexivity|]. split; [simpl; lia|]. vm_compute. reflexivity.
+Qed.
+
+(* The recall floor on large random collections is a statistical statement: measured by the harness, not a theorem. *)
 
 Print Assumptions C07_exact_partial.
+Print Assumptions C07_exact.
